@@ -388,6 +388,10 @@ def _terms_included(want, got):
             if ga == wa and (not wp or not gp or _vocab(wp) != _vocab(gp)):
                 hit = g
                 break
+            # match arms: the reviewed arms are among the arms under which the site runs now
+            if ga == wa and _vocab(wp) == 'v' and _vocab(gp) == 'v' and set(wp.split('/')) <= set(gp.split('/')):
+                hit = g
+                break
         if hit is None and wp.lstrip('~') == 'ne':
             # `x != K` is implied by `x == J` for another constant J
             wparts = wa.split('&')
@@ -475,6 +479,22 @@ def _merge_complementary(sites):
     return stages
 
 
+def _split_arms(sites):
+    """a reviewed site under the arms `x@A/B` may have been split into one site per arm (`A | B => e` written as two arms)"""
+    out = []
+    for w in sites:
+        unions = [t for t in w if '@' in t and _vocab(t.partition('@')[2]) == 'v' and '/' in t.partition('@')[2]]
+        if len(unions) != 1:
+            out.append(list(w))
+            continue
+        u = unions[0]
+        atoms, _, arms = u.partition('@')
+        rest = [t for t in w if t is not u]
+        for a in arms.split('/'):
+            out.append(sorted(rest + ['%s@%s' % (atoms, a)]))
+    return out
+
+
 def error_kind_sites(F, f):
     """[(block, kind)] for every `Err(..)` construction / error constructor call whose payload can be named:
     the enum variant (`UserError::InactiveStreamId` -> 'InactiveStreamId', through `.into()`), or the constructor and its
@@ -545,7 +565,7 @@ def check_guards(ctx, rid, prop):
         # every reviewed site (as its multiset of controlling terms) must still exist; additional sites are new behaviour, not a violation
         # (a site may acquire further controlling tests — e.g. a new early error exit above it — without violating anything:
         #  the reviewed terms must be included in the site's terms)
-        ok = _sites_included(want, got) or any(_sites_included(stage, got) for stage in _merge_complementary(want))
+        ok = _sites_included(want, got) or any(_sites_included(stage, got) for stage in _merge_complementary(want)) or _sites_included(_split_arms(want), got)
         if not ok and e['action'] == 'err':
             # `match o { Some(v) => Ok(v), None => Err(E) }` rewritten as `o.ok_or(E)`: the test moved into the combinator,
             # which is called under the remaining (outer) tests of the reviewed site
